@@ -33,16 +33,23 @@ func repoRoot() string {
 type tc struct {
 	class string
 	data  []byte
+	prime []byte // optional: a valid encoding decoded into the receiver first (used receiver)
 }
 
 type tcs []tc
 
-func (l *tcs) add(class string, data []byte) { *l = append(*l, tc{class, lib.Clone(data)}) }
+func (l *tcs) add(class string, data []byte) { *l = append(*l, tc{class, lib.Clone(data), nil}) }
+
+// addPrimed: the string is additionally decoded into a receiver that holds
+// the valid value it was derived from.
+func (l *tcs) addPrimed(class string, data, prime []byte) {
+	*l = append(*l, tc{class, lib.Clone(data), lib.Clone(prime)})
+}
 
 // allFlips appends every single-bit alteration of v.
 func (l *tcs) allFlips(class string, v []byte) {
 	for i := 0; i < 8*len(v); i++ {
-		*l = append(*l, tc{class, lib.FlipBit(v, i)})
+		*l = append(*l, tc{class, lib.FlipBit(v, i), nil})
 	}
 }
 
